@@ -805,3 +805,11 @@ func controllingIfs(b *ssa.BasicBlock) []ctrlDep {
 	}
 	return out
 }
+
+// fieldNameOfInstr: the (owner, field) addressed or extracted by an instruction, if any.
+func fieldNameOfInstr(ins ssa.Instruction) (types.Type, string, bool) {
+	if v, ok := ins.(ssa.Value); ok {
+		return fieldNameOf(v)
+	}
+	return nil, "", false
+}
